@@ -677,3 +677,326 @@ Proof.
   - destruct (CASE [] []) as (parsed & P1 & P2); [left; reflexivity|].
     eexists. exists parsed. split; [reflexivity|]. split; assumption.
 Qed.
+
+(* ====================================================================== *)
+(* the shape of checkGRPCStatus' answer; it cannot crash                    *)
+(* ====================================================================== *)
+Definition status_part (vals : list bytes) : list fb * option Z :=
+  match vals with
+  | [] => ([StMissing], None)
+  | [s] => match atoi s with
+           | None => ([StParse], None)
+           | Some c => ((if (c <? 0)%Z || (16 <? c)%Z then [StRange] else []), Some c)
+           end
+  | _ => ([StMulti], None)
+  end.
+Definition message_part (code : option Z) (vals : list bytes) : list fb * option bytes :=
+  match vals with
+  | [] => ([], None)
+  | m :: _ => (scan_msg m 0 ++
+               (match code with
+                | Some c => if (c =? 0)%Z && negb (is_nil m) then [MsgWithOk] else []
+                | None => []
+                end), percent_decode m)
+  end.
+Definition multi (f : fb) (vals : list bytes) : list fb := if Nat.ltb 1 (length vals) then [f] else [].
+
+Lemma check_shape unmarshal h :
+  check_grpc_status unmarshal h =
+  Done (fst (status_part (hget h k_status)) ++ multi MsgMulti (hget h k_message) ++
+        fst (message_part (snd (status_part (hget h k_status))) (hget h k_message)) ++
+        multi DetMulti (hget h k_details) ++
+        match hget h k_details with
+        | [] => []
+        | d :: _ => check_details unmarshal (snd (status_part (hget h k_status)))
+                                  (snd (message_part (snd (status_part (hget h k_status))) (hget h k_message))) d
+        end).
+Proof.
+  unfold check_grpc_status, multi.
+  destruct (hget h k_status) as [|s [|s' ss]]; cbn [length Nat.ltb Nat.leb Nat.eqb status_part fst snd];
+    try destruct (atoi s) as [c|]; cbn [fst snd];
+    (destruct (hget h k_message) as [|m [|m' ms]]; cbn [length Nat.ltb Nat.leb Nat.eqb message_part fst snd];
+     (destruct (hget h k_details) as [|d [|d' ds]]; cbn [length Nat.ltb Nat.leb Nat.eqb app];
+      rewrite ?app_nil_r; reflexivity)).
+Qed.
+
+Lemma check_grpc_status_total_proof : forall unmarshal h, exists fbs, check_grpc_status unmarshal h = Done fbs.
+Proof. intros. rewrite check_shape. eexists. reflexivity. Qed.
+
+(* ---------- rejection: grpc-status ---------- *)
+Lemma in_result unmarshal h f :
+  (In f (fst (status_part (hget h k_status))) \/ In f (multi MsgMulti (hget h k_message)) \/
+   In f (fst (message_part (snd (status_part (hget h k_status))) (hget h k_message))) \/
+   In f (multi DetMulti (hget h k_details)) \/
+   (exists d tl, hget h k_details = d :: tl /\
+      In f (check_details unmarshal (snd (status_part (hget h k_status)))
+              (snd (message_part (snd (status_part (hget h k_status))) (hget h k_message))) d))) ->
+  exists fbs, check_grpc_status unmarshal h = Done fbs /\ In f fbs.
+Proof.
+  intros H. rewrite check_shape. eexists. split; [reflexivity|].
+  rewrite !in_app_iff. destruct H as [H|[H|[H|[H|(d & tl & E & H)]]]]; auto.
+  rewrite E. auto 10.
+Qed.
+
+Lemma flags_missing_status_proof : forall unmarshal h, hget h k_status = [] ->
+  exists fbs, check_grpc_status unmarshal h = Done fbs /\ In StMissing fbs.
+Proof. intros u h H. apply in_result. left. rewrite H. left. reflexivity. Qed.
+
+Lemma flags_multiple_status_proof : forall unmarshal h a b tl, hget h k_status = a :: b :: tl ->
+  exists fbs, check_grpc_status unmarshal h = Done fbs /\ In StMulti fbs.
+Proof. intros u h a b tl H. apply in_result. left. rewrite H. left. reflexivity. Qed.
+
+Lemma flags_unparsable_status_proof : forall unmarshal h s, hget h k_status = [s] -> atoi s = None ->
+  exists fbs, check_grpc_status unmarshal h = Done fbs /\ In StParse fbs.
+Proof. intros u h s H A. apply in_result. left. rewrite H. cbn. rewrite A. left. reflexivity. Qed.
+
+Lemma flags_status_out_of_range_proof : forall unmarshal h s c, hget h k_status = [s] -> atoi s = Some c ->
+  (c < 0 \/ 16 < c)%Z ->
+  exists fbs, check_grpc_status unmarshal h = Done fbs /\ In StRange fbs.
+Proof.
+  intros u h s c H A R. apply in_result. left. rewrite H. cbn. rewrite A. cbn.
+  replace ((c <? 0)%Z || (16 <? c)%Z) with true; [left; reflexivity|].
+  symmetry. apply orb_true_iff. destruct R; [left; apply Z.ltb_lt|right; apply Z.ltb_lt]; assumption.
+Qed.
+
+(* ---------- rejection: grpc-message ---------- *)
+Inductive pct_wf : bytes -> Prop :=
+| pw_nil : pct_wf []
+| pw_plain c r : should_escape c = false -> pct_wf r -> pct_wf (c :: r)
+| pw_esc h l r : is_hex h = true -> is_hex l = true -> pct_wf r -> pct_wf (37 :: h :: l :: r).
+
+Lemma scan_complete : forall s,
+  (scan_msg s 0 = [] -> pct_wf s) /\
+  (scan_msg s 1 = [] -> exists l r, s = l :: r /\ is_hex l = true /\ pct_wf r) /\
+  (scan_msg s 2 = [] -> exists h l r, s = h :: l :: r /\ is_hex h = true /\ is_hex l = true /\ pct_wf r).
+Proof.
+  induction s as [|c r (I0 & I1 & I2)].
+  - cbn. repeat split; [constructor|discriminate|discriminate].
+  - repeat split.
+    + cbn. destruct (N.eqb_spec c 37) as [->|NE].
+      * intros H. destruct (I2 H) as (h & l & r' & -> & Hh & Hl & W). constructor; assumption.
+      * destruct (should_escape c) eqn:SE; [discriminate|]. intros H. constructor; auto.
+    + cbn. destruct (is_hex c) eqn:Hc; [|discriminate]. intros H. exists c, r. auto.
+    + cbn. destruct (is_hex c) eqn:Hc; [|discriminate]. intros H.
+      destruct (I1 H) as (l & r' & -> & Hl & W). exists c, l, r'. auto.
+Qed.
+
+Lemma scan_sound : forall s, pct_wf s -> scan_msg s 0 = [].
+Proof.
+  induction 1 as [|c r SE W IH|h l r Hh Hl W IH]; [reflexivity| |rewrite scan_escaped; assumption].
+  cbn. rewrite SE. destruct (N.eqb_spec c 37) as [->|_]; [discriminate SE|exact IH].
+Qed.
+
+Lemma scan_iff_proof : forall s, scan_msg s 0 = [] <-> pct_wf s.
+Proof. intros s. split; [apply scan_complete|apply scan_sound]. Qed.
+
+Lemma scan_tags s e : forall f, In f (scan_msg s e) -> f = MsgHex \/ f = MsgRaw \/ f = MsgIncomplete.
+Proof.
+  revert e. induction s as [|c r IH]; intros e f; cbn.
+  - destruct (0 <? e); [intros [<-|[]]; auto|intros []].
+  - destruct (0 <? e).
+    + destruct (is_hex c); [apply IH|intros [<-|[]]; auto].
+    + destruct (c =? 37); [apply IH|]. destruct (should_escape c); [intros [<-|[]]; auto|apply IH].
+Qed.
+
+Lemma flags_bad_percent_proof : forall unmarshal h m tl, hget h k_message = m :: tl -> ~ pct_wf m ->
+  exists fbs f, check_grpc_status unmarshal h = Done fbs /\ In f fbs /\
+                (f = MsgHex \/ f = MsgRaw \/ f = MsgIncomplete).
+Proof.
+  intros u h m tl Hm NW.
+  destruct (scan_msg m 0) as [|f rest] eqn:S; [exfalso; apply NW, scan_iff_proof, S|].
+  destruct (in_result u h f) as (fbs & E & Hin).
+  - right. right. left. rewrite Hm. cbn [message_part fst]. rewrite S. left. reflexivity.
+  - exists fbs, f. split; [exact E|]. split; [exact Hin|]. apply (scan_tags m 0). rewrite S. left. reflexivity.
+Qed.
+
+Lemma flags_message_with_ok_status_proof : forall unmarshal h s m tl,
+  hget h k_status = [s] -> atoi s = Some 0%Z -> hget h k_message = m :: tl -> m <> [] ->
+  exists fbs, check_grpc_status unmarshal h = Done fbs /\ In MsgWithOk fbs.
+Proof.
+  intros u h s m tl Hs A Hm NE. apply in_result. right. right. left. rewrite Hs, Hm. cbn. rewrite A. cbn.
+  apply in_or_app. right. destruct m; [congruence|]. left. reflexivity.
+Qed.
+
+(* ---------- rejection: grpc-status-details-bin ---------- *)
+Lemma flags_bad_base64_proof : forall unmarshal h d tl, hget h k_details = d :: tl ->
+  b64_decode_raw d = None -> b64_decode_std d = None ->
+  exists fbs, check_grpc_status unmarshal h = Done fbs /\ In DetB64 fbs.
+Proof.
+  intros u h d tl Hd R S. apply in_result. right. right. right. right. exists d, tl. split; [exact Hd|].
+  unfold check_details. rewrite R, S. left. reflexivity.
+Qed.
+
+Lemma flags_padded_base64_proof : forall unmarshal h d tl data, hget h k_details = d :: tl ->
+  b64_decode_raw d = None -> b64_decode_std d = Some data ->
+  exists fbs, check_grpc_status unmarshal h = Done fbs /\ In DetPadded fbs.
+Proof.
+  intros u h d tl data Hd R S. apply in_result. right. right. right. right. exists d, tl. split; [exact Hd|].
+  unfold check_details. rewrite R, S. left. reflexivity.
+Qed.
+
+Lemma flags_unparsable_details_proof : forall unmarshal h d tl data, hget h k_details = d :: tl ->
+  b64_decode_raw d = Some data -> unmarshal data = UBad ->
+  exists fbs, check_grpc_status unmarshal h = Done fbs /\ In DetProto fbs.
+Proof.
+  intros u h d tl data Hd R U. apply in_result. right. right. right. right. exists d, tl. split; [exact Hd|].
+  unfold check_details. rewrite R, U. left. reflexivity.
+Qed.
+
+Lemma flags_status_disagreement_proof : forall unmarshal h s c d tl data pc pm nd,
+  hget h k_status = [s] -> atoi s = Some c -> hget h k_details = d :: tl ->
+  b64_decode_raw d = Some data -> unmarshal data = UOk pc pm nd -> pc <> to_i32 c ->
+  exists fbs, check_grpc_status unmarshal h = Done fbs /\ In DetCode fbs.
+Proof.
+  intros u h s c d tl data pc pm nd Hs A Hd R U NE. apply in_result. right. right. right. right.
+  exists d, tl. split; [exact Hd|]. rewrite Hs. cbn [status_part]. rewrite A. cbn [snd].
+  unfold check_details. rewrite R, U. apply in_or_app. left.
+  destruct (Z.eqb_spec pc (to_i32 c)); [congruence|left; reflexivity].
+Qed.
+
+Lemma flags_message_disagreement_proof : forall unmarshal h m mtl msg d tl data pc pm nd,
+  hget h k_message = m :: mtl -> percent_decode m = Some msg -> hget h k_details = d :: tl ->
+  b64_decode_raw d = Some data -> unmarshal data = UOk pc pm nd -> pm <> msg ->
+  exists fbs, check_grpc_status unmarshal h = Done fbs /\ In DetMsg fbs.
+Proof.
+  intros u h m mtl msg d tl data pc pm nd Hm D Hd R U NE. apply in_result. right. right. right. right.
+  exists d, tl. split; [exact Hd|]. rewrite Hm. cbn [message_part snd]. rewrite D.
+  unfold check_details. rewrite R, U. apply in_or_app. right. apply in_or_app. right.
+  destruct (bytes_eqb_spec pm msg); [congruence|left; reflexivity].
+Qed.
+
+Lemma flags_ok_with_details_proof : forall unmarshal h d tl data pm nd,
+  hget h k_details = d :: tl -> b64_decode_raw d = Some data -> unmarshal data = UOk 0%Z pm (S nd) ->
+  exists fbs, check_grpc_status unmarshal h = Done fbs /\ In DetOkDetails fbs.
+Proof.
+  intros u h d tl data pm nd Hd R U. apply in_result. right. right. right. right.
+  exists d, tl. split; [exact Hd|]. unfold check_details. rewrite R, U.
+  apply in_or_app. right. apply in_or_app. left. left. reflexivity.
+Qed.
+
+(* ====================================================================== *)
+(* examineGRPCEndStream: cannot crash; feedback of a line is kept           *)
+(* ====================================================================== *)
+Lemma split_n2_cons s : exists k rest, split_n2 s = k :: rest.
+Proof. unfold split_n2. destruct (cut_colon s) as [[a b]|]; eauto. Qed.
+
+Lemma eos_step_facts n i l s :
+  exists s', eos_step n i l s = Done s' /\ e_nocr s <= e_nocr s' /\ (exists x, e_out s' = e_out s ++ x)
+             /\ (Nat.eqb (i + 1) n = false -> ends_cr l = false -> e_nocr s < e_nocr s').
+Proof.
+  unfold eos_step.
+  destruct (Nat.eqb (i + 1) n) eqn:EL; destruct (ends_cr l) eqn:EC; cbn [andb];
+  repeat (cbv beta iota;
+    match goal with
+    | |- context [split_n2 ?line] =>
+      let k := fresh "k" in let rest := fresh "rest" in let E := fresh "E" in
+      destruct (split_n2_cons line) as (k & rest & E); rewrite E; clear E
+    | |- exists s', (if ?b then _ else _) = _ /\ _ => destruct b
+    | |- exists s', (match ?x with _ => _ end) = _ /\ _ => destruct x
+    end);
+  (eexists; split; [reflexivity|]; cbn; split; [lia|]; split;
+   [first [eexists; reflexivity | exists []; symmetry; apply app_nil_r] | try discriminate; intros; lia]).
+Qed.
+
+Lemma eos_loop_facts n : forall lines i s,
+  exists s', eos_loop n i lines s = Done s' /\ e_nocr s <= e_nocr s' /\ (exists x, e_out s' = e_out s ++ x).
+Proof.
+  induction lines as [|l lines IH]; intros i s.
+  - exists s. cbn. split; [reflexivity|]. split; [lia|]. exists []. symmetry. apply app_nil_r.
+  - cbn [eos_loop]. destruct (eos_step_facts n i l s) as (s1 & E1 & N1 & (x1 & O1) & _). rewrite E1.
+    destruct (IH (S i) s1) as (s2 & E2 & N2 & (x2 & O2)). exists s2. split; [exact E2|]. split; [lia|].
+    exists (x1 ++ x2). rewrite O2, O1, app_assoc. reflexivity.
+Qed.
+
+Lemma eos_loop_app n : forall l1 l2 i s,
+  eos_loop n i (l1 ++ l2) s =
+  match eos_loop n i l1 s with Done s1 => eos_loop n (i + length l1) l2 s1 | Crash => Crash end.
+Proof.
+  induction l1 as [|l l1 IH]; intros l2 i s.
+  - cbn. rewrite Nat.add_0_r. reflexivity.
+  - cbn [app eos_loop length]. destruct (eos_step n i l s); [|reflexivity].
+    rewrite IH. replace (S i + length l1)%nat with (i + S (length l1))%nat by lia. reflexivity.
+Qed.
+
+Lemma examine_total_proof : forall content, exists fbs m, examine_grpc_end_stream content = Done (fbs, m).
+Proof.
+  intros c. unfold examine_grpc_end_stream.
+  destruct (eos_loop_facts (length (split_on 10 c)) (split_on 10 c) 0 est0) as (s & E & _). cbv zeta.
+  rewrite E. eauto.
+Qed.
+
+Ltac rw_step E := match goal with |- context [eos_step ?a ?b ?c ?d] =>
+  let H := fresh in pose proof (E : eos_step a b c d = _) as H; rewrite H; clear H end.
+Ltac rw_loop E := match goal with |- context [eos_loop ?a ?b ?c ?d] =>
+  let H := fresh in pose proof (E : eos_loop a b c d = _) as H; rewrite H; clear H end.
+
+(* a line of the block (any but the last piece of the LF split) that is "key:value" + CR *)
+Lemma line_feedback_kept : forall content l1 l2 key v f,
+  split_on 10 content = l1 ++ ((key ++ 58 :: v) ++ [13]) :: l2 -> l2 <> [] ->
+  ~ In 58 key -> starts_ws key = false ->
+  In f (fst (field_fb key v (key ++ 58 :: v))) ->
+  exists fbs m, examine_grpc_end_stream content = Done (fbs, m) /\ In f fbs.
+Proof.
+  intros content l1 l2 key v f SP NE C58 SW Hin. unfold examine_grpc_end_stream. cbv zeta. rewrite SP.
+  match goal with |- context [eos_loop ?N 0%nat _ est0] => set (n := N) end.
+  rewrite eos_loop_app. destruct (eos_loop_facts n l1 0 est0) as (s1 & E1 & _). rw_loop E1.
+  cbn [eos_loop].
+  assert (Hi : Nat.eqb (0 + length l1 + 1) n = false).
+  { apply Nat.eqb_neq. unfold n. rewrite app_length. cbn [length]. destruct l2; [congruence|]. cbn [length]. lia. }
+  assert (ST : exists s2, eos_step n (0 + length l1) ((key ++ 58 :: v) ++ [13]) s1 = Done s2 /\
+                          e_out s2 = e_out s1 ++ fst (field_fb key v (key ++ 58 :: v))).
+  { destruct (ends_cr_app (key ++ 58 :: v)) as [EC SC].
+    unfold eos_step. rewrite Hi. cbn [andb]. rewrite EC, SC.
+    assert (NN : is_nil (key ++ 58 :: v) = false) by (destruct key; reflexivity). rewrite NN.
+    unfold split_n2. rewrite cut_colon_app by exact C58. rewrite SW, andb_false_r.
+    destruct (field_fb key v (key ++ 58 :: v)) as [fbs val]. eexists. split; reflexivity. }
+  destruct ST as (s2 & E2 & O2). rw_step E2.
+  destruct (eos_loop_facts n l2 (S (0 + length l1)) s2) as (s3 & E3 & _ & (x & O3)). rw_loop E3.
+  eexists. eexists. split; [reflexivity|]. rewrite O3, O2. rewrite !in_app_iff. auto.
+Qed.
+
+Lemma flags_upper_case_key_proof : forall content l1 l2 key v,
+  split_on 10 content = l1 ++ ((key ++ 58 :: v) ++ [13]) :: l2 -> l2 <> [] ->
+  ~ In 58 key -> starts_ws key = false -> not_lower key = true ->
+  exists fbs m, examine_grpc_end_stream content = Done (fbs, m) /\ In EosUpper fbs.
+Proof.
+  intros. eapply line_feedback_kept; eauto. unfold field_fb. cbn [fst]. rewrite H3.
+  rewrite !in_app_iff. right. left. left. reflexivity.
+Qed.
+
+Lemma flags_invalid_field_name_proof : forall content l1 l2 key v,
+  split_on 10 content = l1 ++ ((key ++ 58 :: v) ++ [13]) :: l2 -> l2 <> [] ->
+  ~ In 58 key -> starts_ws key = false -> valid_field_name key = false ->
+  exists fbs m, examine_grpc_end_stream content = Done (fbs, m) /\ In EosName fbs.
+Proof.
+  intros. eapply line_feedback_kept; eauto. unfold field_fb. cbn [fst]. rewrite H3.
+  rewrite !in_app_iff. left. left. reflexivity.
+Qed.
+
+Lemma flags_invalid_field_value_proof : forall content l1 l2 key v,
+  split_on 10 content = l1 ++ ((key ++ 58 :: v) ++ [13]) :: l2 -> l2 <> [] ->
+  ~ In 58 key -> starts_ws key = false -> valid_field_value (trim_ws v) = false ->
+  exists fbs m, examine_grpc_end_stream content = Done (fbs, m) /\ In EosValue fbs.
+Proof.
+  intros. eapply line_feedback_kept; eauto. unfold field_fb. cbn [fst]. rewrite H3.
+  rewrite !in_app_iff. right. right. left. reflexivity.
+Qed.
+
+(* a line that ends in LF without CR *)
+Lemma flags_lf_line_ending_proof : forall content l1 l l2,
+  split_on 10 content = l1 ++ l :: l2 -> l2 <> [] -> ends_cr l = false ->
+  exists fbs m, examine_grpc_end_stream content = Done (fbs, m) /\ In EosLF fbs.
+Proof.
+  intros content l1 l l2 SP NE EC. unfold examine_grpc_end_stream. cbv zeta. rewrite SP.
+  match goal with |- context [eos_loop ?N 0%nat _ est0] => set (n := N) end.
+  rewrite eos_loop_app. destruct (eos_loop_facts n l1 0 est0) as (s1 & E1 & N1 & _). rw_loop E1.
+  cbn [eos_loop].
+  assert (Hi : Nat.eqb (0 + length l1 + 1) n = false).
+  { apply Nat.eqb_neq. unfold n. rewrite app_length. cbn [length]. destruct l2; [congruence|]. cbn [length]. lia. }
+  destruct (eos_step_facts n (0 + length l1) l s1) as (s2 & E2 & _ & _ & LT). rw_step E2.
+  specialize (LT Hi EC).
+  destruct (eos_loop_facts n l2 (S (0 + length l1)) s2) as (s3 & E3 & N3 & _). rw_loop E3.
+  eexists. eexists. split; [reflexivity|]. apply in_or_app. right. unfold eos_tail.
+  rewrite !in_app_iff. right. right. left.
+  destruct (N.ltb_spec 0 (e_nocr s3)); [left; reflexivity|lia].
+Qed.
